@@ -252,6 +252,7 @@ class G:
             (3, lambda: ["vsum", self.V(d, classes=("var", "expr", "pow", "un"))]),
             (1, lambda: ["vector_sum", self.V(d, classes=("var", "expr"))]),
             (3, lambda: self.dot(d)),
+            (1, lambda: ["dotself", self.V(d, classes=("var", "expr")), self.draw(st.sampled_from(["dot", "matmul"]))]),
             (3, lambda: self.lincomb(d)),
             (2, lambda: self.quad(d)),
         ]
@@ -501,7 +502,7 @@ def used_vars(recipe, env):
 
 
 @st.composite
-def orders(draw, used, env):
+def orders(draw, used, env, exact_weight=1):
     """ordered list V with used ⊆ V; returns (stratum, list)"""
     used = sorted(used, key=natural_key)
     allv = all_var_names(env)
@@ -510,7 +511,7 @@ def orders(draw, used, env):
     for v in env["vectors"]:
         el = [f"{v['name']}[{i}]" for i in range(v["n"])]
         if set(used) <= set(el):
-            strata.append("exactvec:" + v["name"])
+            strata += ["exactvec:" + v["name"]] * exact_weight
     s = draw(st.sampled_from(strata))
     if s == "own":
         return s, used
